@@ -133,32 +133,78 @@ func checkC14(r *Run) {
 	r.Log("aggregate=%s type=%s", c.name, c.typ)
 	r.Shape(c.name, c.typ)
 
+	// Two kinds of histories. Prefix-valid: every retraction names a value that is present (what a
+	// group-by receives from a valid changelog). Any interleaving (1/4 of the runs): the same additions
+	// and retractions in an arbitrary order, so a retraction may arrive before its addition; the
+	// statement quantifies over every interleaving whose net multiset is non-empty, and the oracle is
+	// evaluated whenever the net multiset is a multiset (no negative multiplicity) and non-empty.
+	anyOrder := hdr.Chance(1, 4)
+	type op struct {
+		retract bool
+		v       octosql.Value
+	}
+	var ops []op
+	{
+		var present []octosql.Value
+		body := t.Block(4*maxSteps + 4)
+		for i := 0; i < maxSteps; i++ {
+			sb := body.Block(4)
+			if sb.Draw(maxSteps+1) == 0 {
+				break
+			}
+			if len(present) > 0 && sb.Draw(3) == 0 {
+				j := sb.Draw(len(present))
+				ops = append(ops, op{true, present[j]})
+				present = append(present[:j:j], present[j+1:]...)
+			} else {
+				v := drawAggValue(sb, c, dom)
+				present = append(present, v)
+				ops = append(ops, op{false, v})
+			}
+		}
+		if anyOrder {
+			sh := t.Block(maxSteps)
+			for i := len(ops) - 1; i > 0; i-- {
+				j := sh.Draw(i + 1)
+				ops[i], ops[j] = ops[j], ops[i]
+			}
+			attrs["history"] = "any_order"
+		}
+	}
+
 	agg := c.proto()
-	var present []octosql.Value
+	counts := NewMS() // signed: a retraction ahead of its addition makes a multiplicity negative for a while
 	var hist strings.Builder
 	sumAbs := 0.0
 	steps := 0
-	body := t.Block(4*maxSteps + 4)
-	for i := 0; i < maxSteps; i++ {
-		sb := body.Block(4)
-		if sb.Draw(maxSteps+1) == 0 {
-			break
-		}
+	type reported struct {
+		v    octosql.Value
+		enc  string
+		hist string
+	}
+	var earlier []reported
+	for _, o := range ops {
 		steps++
-		retract := len(present) > 0 && sb.Draw(3) == 0
-		var v octosql.Value
+		retract, v := o.retract, o.v
 		if retract {
-			j := sb.Draw(len(present))
-			v = present[j]
-			present = append(present[:j:j], present[j+1:]...)
+			counts.Add([]octosql.Value{v}, -1)
 			hist.WriteString("-" + ValString(v) + " ")
 		} else {
-			v = drawAggValue(sb, c, dom)
-			present = append(present, v)
+			counts.Add([]octosql.Value{v}, 1)
 			hist.WriteString("+" + ValString(v) + " ")
 		}
 		if v.TypeID == octosql.TypeIDFloat {
 			sumAbs += math.Abs(v.Float)
+		}
+		_, negative := counts.HasNegative()
+		var present []octosql.Value
+		if !negative {
+			for _, row := range counts.Rows() {
+				present = append(present, row[0])
+			}
+		}
+		if negative {
+			r.Probe("net_multiset_negative_for_a_while")
 		}
 		var got octosql.Value
 		var perr any
@@ -174,8 +220,23 @@ func checkC14(r *Run) {
 			r.Violate("C14", "panic", attrs, "aggregate panicked after history %s: %v", hist.String(), perr)
 			break
 		}
+		// a value once reported stays what it was: the group-by keeps it to retract it later
+		for _, e := range earlier {
+			if RowKey([]octosql.Value{e.v}) != e.enc {
+				r.Violate("C14", "reported_value_changed", attrs, "the value reported after history %s was %s; after %s the same value reads %s",
+					e.hist, e.enc, strings.TrimSpace(hist.String()), RowKey([]octosql.Value{e.v}))
+				break
+			}
+		}
+		if r.Failed() {
+			break
+		}
 		if len(present) == 0 {
 			continue
+		}
+		earlier = append(earlier, reported{got, RowKey([]octosql.Value{got}), strings.TrimSpace(hist.String())})
+		if len(earlier) > 4 {
+			earlier = earlier[1:]
 		}
 		want, tol := refAggregate(c, present, steps, sumAbs)
 		if !aggResultEqual(got, want, tol) {
